@@ -154,6 +154,9 @@ where
     ) -> bool {
         // update both gradient and Hessian for function f*(z) at the point z
         self.update_dual_grad_H(z);
+        if !self.data.grad.is_finite() {
+            return false;
+        }
         self.data.μ = μ;
 
         // K.z .= z
@@ -367,7 +370,12 @@ where
 
         let norm2w = z[dim1..].sumsq();
         let ζ = phi - norm2w;
-        assert!(ζ > T::zero());
+        if !(ζ > T::zero()) {
+            // z is numerically not in the interior of the dual cone.
+            // Flag it so that update_scaling reports a numerical failure
+            data.grad.set(T::nan());
+            return;
+        }
 
         // compute the gradient at z
         let grad = &mut data.grad;
